@@ -310,9 +310,11 @@ COMPANIONS = {
     "half": [F(-1, 2), 1],       # x^2 - x + 1/2    (complex, |r| < 1)
     "plastic": [1, 1, 0],        # x^3 - x - 1      (CRootOf in sympy)
     "sqrt2i": [-2, 0],           # x^2 + 2
+    "3real": [-1, 3, 0],         # x^3 - 3x + 1     (casus irreducibilis: three real roots, all CRootOf; real roots sort BEFORE rational/radical ones only by value)
 }
+CROOT_COMPANIONS = ("plastic", "3real")
 COMPLEX_COMPANIONS = ["i", "1+i", "cbrt2", "w3", "half", "plastic", "sqrt2i"]
-REAL_COMPANIONS = ["fib", "sqrt2", "3x"]
+REAL_COMPANIONS = ["fib", "sqrt2", "3x", "3real"]
 HARD_COMPANIONS = {
     "quintic": [1, 1, 0, 0, 0],    # x^5 - x - 1  (not solvable: CRootOf)
     "x4+1": [-1, 0, 0, 0],         # x^4 + 1
@@ -435,7 +437,7 @@ def _pick_dim_blocks(rng, profile, maxdim):
                 if profile == "repeated_companion" and room() >= k:
                     add("C", (name, False, scale), k)
         lim = maxdim if profile != "options" else min(maxdim, 4)
-        if any(k_ == "C" and sp_[0] == "plastic" for k_, sp_ in blocks):
+        if any(k_ == "C" and sp_[0] in CROOT_COMPANIONS for k_, sp_ in blocks):
             # exact CRootOf arithmetic in Polar's linsolve explodes beyond dimension 3-4: keep those systems small
             lim = min(lim, size + (0 if maxdim <= 5 else 1))
         while size < lim and rng.random() < (0.65 if profile != "options" else 0.5):
@@ -443,7 +445,7 @@ def _pick_dim_blocks(rng, profile, maxdim):
             if r < 0.3 and lim - size >= 2:
                 name = rng.choice(list(COMPANIONS) if profile != "options" else REAL_COMPANIONS + COMPLEX_COMPANIONS)
                 k = len(COMPANIONS[name])
-                if k <= lim - size and name != "plastic":
+                if k <= lim - size and name not in CROOT_COMPANIONS:
                     add("C", (name, rng.random() < 0.3, 1), k)
             elif r < 0.55:
                 k = min(lim - size, rng.choice([1, 1, 2, 3]))
@@ -742,6 +744,17 @@ def fixed_cases(tier="quick"):
     # default dispatch is cyclic and 0 is a double root:  x' = 0, y' = y + z, z' = x + y + z  (truth y = 0,0,1,2,4,8,..)
     out.append(("fixed-cyclic-double-zero", sysd(["u0", "u1", "u2"], [[0, 0, 0], [0, 1, 1], [1, 1, 1]], [0, 0, 0], [1, 0, 0], both,
                                                  {"profile:fixed", "jordan0-size2"})))
+    # three real CRootOf roots followed (in all_roots order: reals ascending) by a larger rational root / by the root 1 of the
+    # inhomogeneous part: the exactness flag must be accumulated over ALL roots, not taken from the last one
+    A3, _ = block_sum([companion(COMPANIONS["3real"]), [[F(2)]]])
+    out.append(("fixed-3real-croots-rational-last", sysd(["u0", "u1", "u2", "u3"], A3, [0] * 4, [1, 0, 1, 1],
+                                                         [{"force_cyclic": True, "numeric_croots": True, "numeric_eps": "1e-10"},
+                                                          {"force_cyclic": False, "numeric_croots": True, "numeric_eps": "1e-10"}],
+                                                         {"profile:fixed", "companion:3real", "root-options"})))
+    out.append(("fixed-3real-half-inhomogeneous", sysd(["u0", "u1", "u2"], companion(COMPANIONS["3real"], scale=F(1, 2)), [0, 0, 1], [1, 2, 3],
+                                                       [{"force_cyclic": True, "numeric_croots": True, "numeric_eps": "1e-10"},
+                                                        {"force_cyclic": True, "numeric_roots": True, "numeric_eps": "1e-10"}],
+                                                       {"profile:fixed", "companion:3real", "inhomogeneous", "root-options"})))
     if tier != "quick":
         # (x^2-x-1)(x^3-x-1) with numeric_croots: exact (1+-sqrt5)/2 mixed with 15-digit floats in sympy linsolve (~25 s)
         A, _ = block_sum([companion(COMPANIONS["fib"]), companion(COMPANIONS["plastic"])])
